@@ -27,7 +27,10 @@ int verif_rc_main() {
   });
   double scale = (double)verif_max_tape / 100.0;
   if (scale < 0.05) scale = 0.05;
-  auto tapeGen = gen::scale(scale, gen::container<std::vector<uint8_t>>(byteGen));
+  // tape length: uniform in [0, size'] with size' = 30 + 0.7*size, so that also the early (small size) cases
+  // carry enough choices to reach the later decisions of a decoder; shrinking still deletes/lowers bytes
+  auto baseGen = gen::scale(scale, gen::container<std::vector<uint8_t>>(byteGen));
+  auto tapeGen = gen::withSize([=](int size) { return gen::resize(30 + size * 7 / 10, baseGen); });
   uint64_t n = 0;
   bool ok = rc::check(std::string("property ") + verif_property_id, [&]() {
     std::vector<uint8_t> tape = *tapeGen;
